@@ -18,6 +18,7 @@ from .interp import (
     Closure,
     FStr,
     GenObj,
+    HostModel,
     Interp,
     PyRaise,
     SuperProxy,
@@ -254,16 +255,27 @@ def _slice_bounds(interp, sl, n):
     if sl.step not in (None, 1):
         raise OutsideSubset("slice step")
 
+    ent = interp.ctx.qsolver.entails
+
+    def ite(c, a, b):
+        """If(c, a, b), resolved when the path condition decides c (keeps slice extents readable for the solver)."""
+        c = z3.simplify(c)
+        if z3.is_true(c) or (not z3.is_false(c) and ent(c)):
+            return a
+        if z3.is_false(c) or ent(z3.Not(c)):
+            return b
+        return z3.If(c, a, b)
+
     def clip(v, default):
         if v is None:
             return default
         t = to_z3(interp.resolve(v))
-        t = z3.If(t < 0, t + n, t)
-        return z3.If(t < 0, z3.IntVal(0), z3.If(t > n, n, t))
+        t = ite(t < 0, t + n, t)
+        return ite(t < 0, z3.IntVal(0), ite(t > n, n, t))
 
     start = clip(sl.start, z3.IntVal(0))
     stop = clip(sl.stop, n)
-    stop = z3.If(stop < start, start, stop)
+    stop = ite(stop < start, start, stop)
     return z3.simplify(start), z3.simplify(stop)
 
 
@@ -503,12 +515,113 @@ def store_subscript(interp, obj, idx, v):
 # ================================================================================================
 
 
+class _SubExplorer:
+    def __init__(self, parent_ctx):
+        self.work = [[]]
+        self.target = parent_ctx.target
+        self.quant_feas = parent_ctx.explorer.quant_feas
+        self.cond_log = None
+
+    def push(self, decisions):
+        self.work.append(decisions)
+
+
+def explore_generic(interp, thunk, assumption):
+    """Run thunk() on every path that is feasible from the current state plus `assumption`, without forking the
+    caller's path.  Returns [(path condition relative to the caller, 'value' | 'raise', result)]."""
+    from .core import Ctx
+
+    parent = interp.ctx
+    sub = _SubExplorer(parent)
+    results = []
+    counters = dict(parent.counter)
+    n = 0
+    while sub.work:
+        dec = sub.work.pop()
+        child = Ctx(sub, dec, parent.ledger)
+        child.counter = dict(parent.counter)
+        child.ghost = parent.ghost
+        child.trace = parent.trace
+        for c in parent.pc:
+            child.pc.append(c)
+            child.qsolver.add(c)
+        child.lits = dict(parent.lits)
+        base = len(child.pc)
+        child.assume(assumption)
+        interp.ctx = child
+        try:
+            v = thunk()
+            kind = "value"
+        except PyRaise as pr:
+            v, kind = pr.exc, "raise"
+        except PathAbort:
+            continue
+        finally:
+            interp.ctx = parent
+            for k, c in child.counter.items():
+                counters[k] = max(counters.get(k, 0), c)
+        n += 1
+        if n > 200:
+            raise OutsideSubset("more than 200 paths in a generic comprehension element")
+        results.append((z3.And(*child.pc[base + 1 :]) if len(child.pc) > base + 1 else z3.BoolVal(True), kind, v))
+    parent.counter.update(counters)
+    return results
+
+
+def symbolic_map_paths(interp: Interp, node, gen, seq: SSeq, frame, kind):
+    """General form of symbolic_map: the element expression may branch on the generic element."""
+    ctx = interp.ctx
+    j = ctx.fresh_int("cj")
+
+    def thunk():
+        interp.assign(gen.target, seq.at(j), frame)
+        return interp.eval(node.elt, frame)
+
+    results = explore_generic(interp, thunk, seq.inrange(j))
+    i = z3.Int(f"cp!{j}")
+
+    def at(t, k):
+        return z3.substitute(t, (j, k))
+
+    # an exception in any iteration escapes the comprehension (first such iteration in order; we only keep the class)
+    for cond, rk, v in results:
+        if rk == "raise":
+            some = z3.Exists([i], z3.And(seq.inrange(i), at(cond, i)))
+            if ctx.branch(some):
+                raise PyRaise(v)
+            ctx.assume(z3.ForAll([i], z3.Implies(seq.inrange(i), z3.Not(at(cond, i)))))
+    vals = [(c, v) for c, rk, v in results if rk == "value"]
+    if not vals:
+        ctx.assume(seq.n == 0)
+        return [] if kind == "list" else SSeq(0, lambda k: 0, list)
+    ctx.assume(z3.ForAll([i], z3.Implies(seq.inrange(i), z3.Or(*[at(c, i) for c, _ in vals]))))
+
+    def elem(k, vals=vals):
+        r = None
+        for c, v in reversed(vals):
+            vk = _subst_value(v, j, k)
+            r = vk if r is None else _ite_value(at(c, k), lambda vk=vk: vk, lambda r=r: r)
+        return r
+
+    res = SSeq(seq.length, elem, list)
+    return SList(res) if kind == "list" else res
+
+
 def symbolic_map(interp: Interp, node, gen, seq: SSeq, frame, kind):
     """[elt for target in seq] with len(seq) symbolic: the element expression is evaluated once for a
     generic index j; exceptions in the element are turned into a universally quantified side condition."""
-    ctx = interp.ctx
     if gen.ifs:
         raise OutsideSubset("filtered comprehension over a symbolic sequence")
+    try:
+        return _symbolic_map_straight(interp, node, gen, seq, frame, kind)
+    except OutsideSubset as exc:
+        if "data-dependent branch" not in str(exc):
+            raise
+    return symbolic_map_paths(interp, node, gen, seq, frame, kind)
+
+
+def _symbolic_map_straight(interp: Interp, node, gen, seq: SSeq, frame, kind):
+    ctx = interp.ctx
     j = ctx.fresh_int("cj")
     # evaluate under the assumption 0 <= j < n, in a *sub-context* so that no branching leaks out
     saved_pc_len = len(ctx.pc)
@@ -740,8 +853,8 @@ def _call_with_value_methods(self, fn, args, kwargs):
             return gen_method(self, fn.self_obj, f.name, args, kwargs)
         if isinstance(f, _FStrMethod):
             raise OutsideSubset(f"str method {f.name} on a formatted string")
-        if callable(f) and not isinstance(f, (types.FunctionType, Closure)):
-            return f(self, fn.self_obj, args, kwargs)
+        if isinstance(f, HostModel):
+            return f.f(self, fn.self_obj, args, kwargs)
     return _orig_call(self, fn, args, kwargs)
 
 
@@ -1048,9 +1161,9 @@ def object_builtin_method(interp, obj: Obj, name, attr):
         return FStr([a])
 
     if name == "__init__":
-        return BoundMethod(init, obj)
+        return BoundMethod(HostModel(init), obj)
     if name in ("__str__", "__repr__"):
-        return BoundMethod(str_, obj)
+        return BoundMethod(HostModel(str_), obj)
     raise OutsideSubset(f"builtin method {name} on interpreted object")
 
 
@@ -1575,10 +1688,20 @@ def _np_concatenate(interp, args, kwargs):
 def _np_clip(interp, args, kwargs):
     a, lo, hi = interp.resolve(args[0]), args[1], args[2]
     if isinstance(a, SArr):
-        tl, th = _num(lo), _num(hi)
+        tl = None if lo is None else _num(lo)
+        th = None if hi is None else _num(hi)
         if a.dtype == "float":
-            tl, th = _coerce(tl, "float"), _coerce(th, "float")
-        return a.map1(lambda t: z3.If(t < tl, tl, z3.If(t > th, th, t)))
+            tl = None if tl is None else _coerce(tl, "float")
+            th = None if th is None else _coerce(th, "float")
+
+        def f(t):
+            if th is not None:
+                t = z3.If(t > th, th, t)
+            if tl is not None:
+                t = z3.If(t < tl, tl, t)
+            return t
+
+        return a.map1(f)
     return interp.native(np.clip, args, kwargs)
 
 
